@@ -23,6 +23,29 @@ ASSUMPTIONS = c01.ASSUMPTIONS + ["`decimal` typed elements of at most 15 charact
 cfg_of, cfg_id = c01.cfg_of, c01.cfg_id
 
 
+class Pipe(io.RawIOBase):
+    """a non-seekable byte stream (stdin, an OS pipe, a socket file): read() only; tell() / seek() are unsupported"""
+
+    def __init__(self, data):
+        super().__init__()
+        self._b = io.BytesIO(data)
+
+    def readable(self):
+        return True
+
+    def seekable(self):
+        return False
+
+    def read(self, n=-1):
+        return self._b.read(n)
+
+    def tell(self):
+        raise io.UnsupportedOperation('tell')
+
+    def seek(self, *a):
+        raise io.UnsupportedOperation('seek')
+
+
 def impl_eval(case):
     from cardutil import iso8583, mciipm
     cfg = cfg_of(case)
@@ -39,11 +62,12 @@ def impl_eval(case):
     if case['k'] == 'file':
         data = bytes.fromhex(case['data'])
         blocked = bool(case['b'])
+        src = Pipe(data) if case.get('pipe') else io.BytesIO(data)
         if case.get('reader') == 'vbs':
-            recs, exc = read_all(mciipm.VbsReader(io.BytesIO(data), blocked=blocked))
+            recs, exc = read_all(mciipm.VbsReader(src, blocked=blocked))
             body = ','.join(common.sig(r) for r in recs)
         else:
-            recs, exc = read_all(mciipm.IpmReader(io.BytesIO(data), encoding=codec, iso_config=cfg, blocked=blocked))
+            recs, exc = read_all(mciipm.IpmReader(src, encoding=codec, iso_config=cfg, blocked=blocked))
             body = '|'.join(iu.dict_wire({k: v for k, v in r.items() if not k.startswith('DE43_')}, sort=True)
                             for r in recs)
         end = render_end(exc) if not isinstance(exc, common.CaseTimeout) else 'diverge'
@@ -350,9 +374,12 @@ def explore(run, tier):
         for o in range(0, min(len(good), 8)):   # every byte of the first length prefix
             for v in (0x00, 0x01, 0x17, 0x18, 0x80, 0xff):
                 variants.append(good[:o] + bytes([v]) + good[o + 1:])
-        for v in variants:
+        for j, v in enumerate(variants):
             cases.append({'k': 'file', 'cfg': 'pkg', 'codec': codec, 'b': blocked, 'data': v.hex(),
                           'reader': 'vbs' if (len(v) + i) % 3 == 0 else 'ipm'})
+            if j % 3 == 0:          # the same through a non-seekable stream
+                cases.append({'k': 'file', 'cfg': 'pkg', 'codec': codec, 'b': blocked, 'data': v.hex(),
+                              'reader': 'ipm' if j % 2 else 'vbs', 'pipe': True})
             if (len(v) % 7 == 0 or thorough) and codec in ('latin_1', 'cp500'):
                 cases.append({'k': 'cli', 'cfg': 'pkg', 'codec': codec, 'b': blocked, 'data': v.hex(),
                               'tool': 'mci_ipm_to_csv' if i % 2 else 'mideu'})
